@@ -108,3 +108,23 @@ def check_effect_confined(w, fw, e, rep, cfg, rule, prop_prefix):
                                   "cache-directory" if want == "cache" else "explicit destination/target"),
                               loc=e.loc(), config=cfg, rule=rule)
     return ok_all, n
+
+
+def arg_sources(w, lf, i, depth=0, seen=None):
+    """Follow parameter `i` of `lf` up the call graph until the passed term is no longer a bare parameter of the
+    caller; returns [(caller LogicalFn, body, block, term)]."""
+    prog = w.prog
+    seen = seen or set()
+    if (lf.path, i) in seen or depth > 6:
+        return []
+    seen.add((lf.path, i))
+    out = []
+    for (g, b, blk, t) in prog.callers_of(lf):
+        if i >= len(t.args):
+            continue
+        tm = w.sym.of_operand(b, t.args[i])
+        if tm[0] == "param" and tm[1] == g.path and not tm[3]:
+            out.extend(arg_sources(w, g, tm[2], depth + 1, seen))
+        else:
+            out.append((g, b, blk, tm))
+    return out
